@@ -1,7 +1,233 @@
-//! Implementation-side evaluator for the `scripts` correspondence checks (see props/).
+//! Implementation-side evaluator for the `scripts` correspondence checks (props/C18.py).
+//!
+//! ops:
+//! * `scripts`   — parse a caller-supplied nextest.toml (experimental setup-scripts enabled) over
+//!   the fixture package graph, pick a profile, apply caller-chosen build platforms and run the
+//!   real `SetupScripts::new_with_queries` / `SetupScript::is_enabled` /
+//!   `SetupScriptExecuteData::apply` through hook H6 (`config::verif_scripts`).
+//! * `parse_env` — the real `parse_env_file` on caller-supplied bytes (hook H6,
+//!   `runner::verif_script_helpers`).
+//! * `final_stats` — the public `RunStats::summarize_final` on caller-supplied setup-script
+//!   counters (everything else zero).
+use crate::common::*;
+use camino::Utf8PathBuf;
+use nextest_filtering::{BinaryQuery, ParseContext, TestQuery};
+use nextest_metadata::RustBinaryId;
+use nextest_runner::{
+    cargo_config::{TargetDefinitionLocation, TargetTriple, TargetTripleSource},
+    config::{verif_scripts, ConfigExperimental, NextestConfig, ToolConfigFile},
+    platform::{BuildPlatforms, HostPlatform, PlatformLibdir, TargetPlatform},
+    reporter::events::{FinalRunStats, RunStats, RunStatsFailureKind},
+    runner::verif_script_helpers,
+};
 use serde_json::{json, Value};
+use std::collections::{BTreeMap, BTreeSet};
+use target_spec::{Platform, TargetFeatures};
+
+fn platform(triple: &str) -> Platform {
+    Platform::new(triple.to_owned(), TargetFeatures::Unknown).expect("known triple")
+}
+
+fn build_platforms(host: &str, target: Option<&str>) -> BuildPlatforms {
+    BuildPlatforms {
+        host: HostPlatform {
+            platform: platform(host),
+            libdir: PlatformLibdir::Available(Utf8PathBuf::from("/fake/host/libdir")),
+        },
+        target: target.map(|t| TargetPlatform {
+            triple: TargetTriple {
+                platform: platform(t),
+                source: TargetTripleSource::Env,
+                location: TargetDefinitionLocation::Builtin,
+            },
+            libdir: PlatformLibdir::Available(Utf8PathBuf::from("/fake/target/libdir")),
+        }),
+    }
+}
+
+fn unique_path(tag: &str) -> Utf8PathBuf {
+    use std::sync::atomic::{AtomicU64, Ordering};
+    static N: AtomicU64 = AtomicU64::new(0);
+    let dir = std::env::temp_dir();
+    let p = dir.join(format!(
+        "verif-scripts-{}-{}-{}.toml",
+        std::process::id(),
+        tag,
+        N.fetch_add(1, Ordering::Relaxed)
+    ));
+    Utf8PathBuf::try_from(p).expect("utf-8 temp dir")
+}
+
+fn scripts(case: &Value) -> Value {
+    let graph = graph();
+    let pcx = ParseContext::new(graph);
+    let path = unique_path("repo");
+    std::fs::write(&path, case["toml"].as_str().unwrap()).expect("write config");
+    let tool_path = case["tool_toml"].as_str().map(|t| {
+        let p = unique_path("tool");
+        std::fs::write(&p, t).expect("write tool config");
+        p
+    });
+    let tool_files: Vec<ToolConfigFile> = tool_path
+        .iter()
+        .map(|p| ToolConfigFile {
+            tool: "my-tool".to_owned(),
+            config_file: p.clone(),
+        })
+        .collect();
+    let experimental: BTreeSet<_> = [ConfigExperimental::SetupScripts].into_iter().collect();
+    let config = NextestConfig::from_sources(
+        graph.workspace().root(),
+        &pcx,
+        Some(&path),
+        &tool_files,
+        &experimental,
+    );
+    let _ = std::fs::remove_file(&path);
+    if let Some(p) = &tool_path {
+        let _ = std::fs::remove_file(p);
+    }
+    let config = match config {
+        Ok(c) => c,
+        Err(e) => {
+            let mut msg = e.to_string();
+            let mut src = std::error::Error::source(&e);
+            while let Some(s) = src {
+                msg.push_str(": ");
+                msg.push_str(&s.to_string());
+                src = s.source();
+            }
+            return json!({ "config_error": msg });
+        }
+    };
+    let profile = match config.profile(case["profile"].as_str().unwrap_or("default")) {
+        Ok(p) => p,
+        Err(e) => return json!({ "config_error": e.to_string() }),
+    };
+    let bp = build_platforms(
+        case["host"].as_str().unwrap_or("x86_64-unknown-linux-gnu"),
+        case["target"].as_str(),
+    );
+    let profile = profile.apply_build_platforms(&bp);
+
+    // queries: owned parts first, then borrowed views
+    struct Owned {
+        pkg: guppy::PackageId,
+        binary_id: RustBinaryId,
+        kind: nextest_metadata::RustTestBinaryKind,
+        binary_name: String,
+        platform: guppy::graph::cargo::BuildPlatform,
+        test: String,
+    }
+    let owned: Vec<Owned> = case["queries"]
+        .as_array()
+        .unwrap()
+        .iter()
+        .map(|q| Owned {
+            pkg: package_id(q["pkg"].as_str().unwrap()),
+            binary_id: RustBinaryId::new(q["binary_id"].as_str().unwrap()),
+            kind: kind_of(q["kind"].as_str().unwrap()),
+            binary_name: q["binary_name"].as_str().unwrap().to_owned(),
+            platform: match q["platform"].as_str().unwrap() {
+                "host" => guppy::graph::cargo::BuildPlatform::Host,
+                _ => guppy::graph::cargo::BuildPlatform::Target,
+            },
+            test: q["test"].as_str().unwrap().to_owned(),
+        })
+        .collect();
+    let queries: Vec<TestQuery<'_>> = owned
+        .iter()
+        .map(|o| TestQuery {
+            binary_query: BinaryQuery {
+                package_id: &o.pkg,
+                binary_id: &o.binary_id,
+                kind: &o.kind,
+                binary_name: &o.binary_name,
+                platform: o.platform,
+            },
+            test_name: &o.test,
+        })
+        .collect();
+    let selected: Vec<usize> = case["selected"]
+        .as_array()
+        .unwrap()
+        .iter()
+        .map(|x| x.as_u64().unwrap() as usize)
+        .collect();
+    let mut env_maps: BTreeMap<String, BTreeMap<String, String>> = BTreeMap::new();
+    if let Some(m) = case["env_maps"].as_object() {
+        for (sid, kv) in m {
+            let mut inner = BTreeMap::new();
+            for (k, v) in kv.as_object().unwrap() {
+                inner.insert(k.clone(), v.as_str().unwrap().to_owned());
+            }
+            env_maps.insert(sid.clone(), inner);
+        }
+    }
+
+    let view = verif_scripts::evaluate(&profile, &queries, &selected, &env_maps);
+    json!({
+        "defined": view.defined,
+        "rules": view.rules.iter().map(|r| json!({
+            "setup": r.setup,
+            "host_eval": r.host_eval,
+            "host_test_eval": r.host_test_eval,
+            "target_eval": r.target_eval,
+            "has_filter": r.has_filter,
+            "filter_matches": r.filter_matches,
+            "is_enabled": r.is_enabled,
+        })).collect::<Vec<_>>(),
+        "enabled": view.enabled,
+        "enabled_for": view.enabled_for,
+        "applied": view.applied.iter().map(|e| {
+            e.iter().map(|(k, v)| json!([k, v])).collect::<Vec<_>>()
+        }).collect::<Vec<_>>(),
+    })
+}
+
+fn parse_env(case: &Value) -> Value {
+    let bytes: Vec<u8> = case["bytes"]
+        .as_array()
+        .unwrap()
+        .iter()
+        .map(|b| b.as_u64().unwrap() as u8)
+        .collect();
+    match verif_script_helpers::parse_env_bytes(&bytes) {
+        Ok(map) => json!({
+            "ok": map.iter().map(|(k, v)| json!([k, v])).collect::<Vec<_>>()
+        }),
+        Err(kind) => json!({ "err": kind }),
+    }
+}
+
+fn final_stats(case: &Value) -> Value {
+    let n = |k: &str| case[k].as_u64().unwrap_or(0) as usize;
+    let stats = RunStats {
+        setup_scripts_initial_count: n("initial"),
+        setup_scripts_finished_count: n("finished"),
+        setup_scripts_passed: n("passed"),
+        setup_scripts_failed: n("failed"),
+        setup_scripts_exec_failed: n("exec_failed"),
+        setup_scripts_timed_out: n("timed_out"),
+        initial_run_count: n("tests_initial"),
+        finished_count: n("tests_finished"),
+        passed: n("tests_finished"),
+        ..RunStats::default()
+    };
+    // 1 = Failed(SetupScript), 2 = Cancelled(SetupScript), 0 = decided by the tests
+    match stats.summarize_final() {
+        FinalRunStats::Failed(RunStatsFailureKind::SetupScript) => json!(1),
+        FinalRunStats::Cancelled(RunStatsFailureKind::SetupScript) => json!(2),
+        _ => json!(0),
+    }
+}
 
 pub fn run(case: &Value) -> Value {
-    let _ = case;
-    json!({ "error": "not implemented" })
+    match case["op"].as_str().unwrap_or("") {
+        "scripts" => scripts(case),
+        "parse_env" => parse_env(case),
+        "final_stats" => final_stats(case),
+        "exit_code" => json!(nextest_metadata::NextestExitCode::SETUP_SCRIPT_FAILED),
+        other => json!({ "error": format!("unknown op {other}") }),
+    }
 }
